@@ -579,6 +579,8 @@ func TestC11Stress(t *testing.T) {
 			}
 		}
 		hC11.Class("stress-round")
-		hC11.NonTrivial(hx.FP("stress", it), func() string { return fmt.Sprintf("stress round %d: %d goroutines x %d pushes, 3 concurrent Close", it, G, K) })
+		hC11.NonTrivial(hx.FP("stress", it), func() string {
+			return fmt.Sprintf("stress round %d: %d goroutines x %d pushes, 3 concurrent Close", it, G, K)
+		})
 	}
 }
